@@ -182,6 +182,26 @@ Section LoadProofs.
       pose proof (loaded_from_length [] raws). unfold loaded in *. lia.
     - exists rs1. split; auto.
   Qed.
+
+  Lemma classified_in l ps rs ps' e c :
+    classified l ps rs ps' -> In (Some e, c) rs -> exists psa psb, class_spec e psa c psb.
+  Proof.
+    induction 1 as [|e0 l ps c0 ps1 rs ps2 Hc _ IH]; [intros []|].
+    intros [H|H]; [injection H as -> ->; eauto | auto].
+  Qed.
+
+  (* every result that carries an event carries the class of that event's first failing check *)
+  Theorem load_result_class vk raws ps rs ps' e c :
+    load_and_verify PS sig_ok allowed pcall sp_ids sp_state topo fuel gfuel vk raws ps = (LoadResults rs, ps') ->
+    In (Some e, c) rs -> exists psa psb, class_spec e psa c psb.
+  Proof.
+    unfold load_and_verify. destruct vk; simpl; [|discriminate].
+    destruct (classify_all _ _ _ _ _ _ _ _ (topo (loaded raws)) ps) as [[rs1|] ps1] eqn:Hc; [|discriminate].
+    intros [= <- <-] Hin. apply classify_all_spec in Hc.
+    apply in_app_or in Hin. destruct Hin as [Hin|Hin].
+    - eapply classified_in; eauto.
+    - apply repeat_spec in Hin. discriminate.
+  Qed.
 End LoadProofs.
 
 (* ---------- RequestBackfill ---------- *)
@@ -251,6 +271,72 @@ Section BackfillProofs.
         * destruct (take_results rs have result) as [have' result'] eqn:Ht.
           intros H Hinv. destruct (take_results_spec _ _ _ _ _ Ht Hinv) as [Hinv' _]. eapply IH; eauto.
         * apply IH.
+  Qed.
+
+  (* where a returned event comes from: some server's transaction, loaded and verified, gave it
+     a result without error or with a signature error only *)
+  Definition from_server (fuel gfuel : nat) (vk : bool) (e : event) : Prop :=
+    exists s psa psb pdus rs psc,
+      backfill psa s = (psb, Some pdus) /\
+      load_and_verify PS sig_ok allowed pcall sp_ids sp_state topo fuel gfuel vk pdus psb = (LoadResults rs, psc) /\
+      taken rs e.
+
+  Lemma bf_loop_from fuel gfuel vk limit : forall servers have result lastErr ps evs le ps',
+    bf_loop PS sig_ok allowed pcall sp_ids sp_state topo backfill fuel gfuel vk limit servers
+            have result lastErr ps = (BfResult evs le, ps') ->
+    bf_inv have result ->
+    (forall e, In e result -> from_server fuel gfuel vk e) ->
+    forall e, In e evs -> from_server fuel gfuel vk e.
+  Proof.
+    induction servers as [|s rest IH]; intros have result lastErr ps evs le ps'; simpl.
+    - intros [= <- <- <-] _ H. exact H.
+    - destruct (Z.leb limit (Z.of_nat (length result))).
+      + intros [= <- <- <-] _ H. exact H.
+      + destruct (backfill ps s) as [ps1 [pdus|]] eqn:Hb; [|apply IH].
+        destruct (load_and_verify _ _ _ _ _ _ _ _ _ _ pdus ps1) as [[rs| |] ps2] eqn:Hl; try discriminate.
+        * destruct (take_results rs have result) as [have' result'] eqn:Ht.
+          intros H Hinv Hres.
+          destruct (take_results_spec _ _ _ _ _ Ht Hinv) as (Hinv' & added & -> & Hadd).
+          eapply IH; eauto. intros e He. apply in_app_or in He. destruct He as [He|He]; auto.
+          exists s, ps, ps1, pdus, rs, ps2. auto.
+        * apply IH.
+  Qed.
+
+  (* every event RequestBackfill returns passed the signature, auth chain and state-at-event
+     checks of LoadAndVerify on some server's answer, or failed the signature check only (the
+     code documents that those are passed on) *)
+  Theorem backfill_events_checked fuel gfuel vk from_ids limit ps evs le ps' :
+    request_backfill PS sig_ok allowed pcall sp_ids sp_state topo servers_at backfill
+                     fuel gfuel vk from_ids limit ps = (BfResult evs le, ps') ->
+    forall e, In e evs ->
+      exists psa psb c, (c = LOk \/ c = LSig) /\
+        class_spec PS sig_ok allowed pcall sp_ids sp_state fuel gfuel e psa c psb.
+  Proof.
+    unfold request_backfill. destruct from_ids as [|first r].
+    - intros [= <- <- <-] e [].
+    - destruct (servers_at ps first) as [ps1 servers]. intros H e He.
+      assert (Hf : from_server fuel gfuel vk e).
+      { eapply bf_loop_from; eauto.
+        - split; [intros x []|constructor].
+        - intros x []. }
+      destruct Hf as (s & psa & psb & pdus & rs & psc & _ & Hl & [Ht|Ht]);
+        destruct (load_result_class PS sig_ok allowed pcall sp_ids sp_state topo fuel gfuel vk pdus psb rs psc e _ Hl Ht)
+          as (p1 & p2 & Hc); eauto 6.
+  Qed.
+
+  (* a non-positive limit returns nothing *)
+  Theorem backfill_limit_nonpositive fuel gfuel vk from_ids limit ps evs le ps' :
+    (limit <= 0)%Z ->
+    request_backfill PS sig_ok allowed pcall sp_ids sp_state topo servers_at backfill
+                     fuel gfuel vk from_ids limit ps = (BfResult evs le, ps') ->
+    evs = [] /\ le = false.
+  Proof.
+    intros Hl. unfold request_backfill. destruct from_ids as [|first r].
+    - intros [= <- <- <-]. auto.
+    - destruct (servers_at ps first) as [ps1 servers]. destruct servers as [|s rest]; simpl.
+      + intros [= <- <- <-]. auto.
+      + destruct (Z.leb limit 0) eqn:Hz; [intros [= <- <- <-]; auto|].
+        apply Z.leb_gt in Hz. lia.
   Qed.
 
   (* the events RequestBackfill returns carry pairwise different IDs; without starting points
